@@ -141,6 +141,89 @@ const INLINE_TAGS: &[&str] = &[
 const FOREIGN: &[&str] = &["svg", "math", "template", "select", "option", "textarea", "title", "noscript",
     "iframe", "object", "button", "form", "frameset", "plaintext", "xmp", "listing", "marquee", "ruby", "rt"];
 
+/// Elements the HTML parser treats as "special" (scope checks walk the stack
+/// of open elements, so deep nests of them cost the parser quadratic time).
+pub const SPECIAL_TAGS: &[&str] = &[
+    "address", "article", "aside", "blockquote", "button", "caption", "center", "dd", "details", "dir", "div", "dl",
+    "dt", "fieldset", "figcaption", "figure", "footer", "form", "h1", "h2", "h3", "h4", "h5", "h6", "header",
+    "hgroup", "li", "listing", "main", "marquee", "menu", "nav", "object", "ol", "p", "pre", "section", "summary",
+    "table", "tbody", "td", "tfoot", "th", "thead", "tr", "ul", "xmp", "select", "option", "optgroup", "template", "rp",
+    "rt",
+];
+
+/// Ordinary phrasing / formatting / unknown elements.
+pub const PHRASING_TAGS: &[&str] = &[
+    "a", "abbr", "b", "bdi", "bdo", "big", "cite", "code", "data", "del", "dfn", "em", "font", "i", "ins", "kbd",
+    "label", "mark", "nobr", "q", "ruby", "s", "samp", "small", "span", "strike", "strong", "sub", "sup",
+    "time", "tt", "u", "var", "output", "meter", "progress", "picture", "slot", "canvas", "audio", "video", "map",
+    "custom-element", "o:p", "blink", "acronym",
+];
+
+/// Void / raw-text / oddly parsed elements (never nested, sprinkled as leaves).
+pub const LEAF_TAGS: &[&str] = &[
+    "br", "hr", "wbr", "img", "input", "area", "base", "col", "embed", "link", "meta", "param", "source", "track",
+    "keygen", "bgsound", "basefont", "frame", "image", "isindex",
+];
+
+const GENERIC_ATTRS: &[(&str, &[&str])] = &[
+    ("type", &["1", "a", "A", "i", "I", "disc", "circle", "text", "checkbox", "x"]),
+    ("reversed", &[""]),
+    ("value", &["1", "0", "-3", "7", "1000000", "9223372036854775807", "x"]),
+    ("width", &["0", "1", "50%", "100", "100000", "-1", "auto"]),
+    ("height", &["0", "10", "100%"]),
+    ("align", &["left", "right", "center", "justify", "char"]),
+    ("valign", &["top", "bottom"]),
+    ("border", &["0", "1", "10"]),
+    ("cellpadding", &["0", "4"]),
+    ("cellspacing", &["0", "2"]),
+    ("span", &["0", "1", "2", "1000", "65536"]),
+    ("dir", &["rtl", "ltr", "auto"]),
+    ("lang", &["en", "ar", "zh-Hant"]),
+    ("title", &["a title", "宽 title", ""]),
+    ("hidden", &["", "until-found"]),
+    ("open", &[""]),
+    ("checked", &[""]),
+    ("disabled", &[""]),
+    ("data-x", &["1", "{\"a\":1}"]),
+    ("aria-hidden", &["true", "false"]),
+    ("aria-label", &["label text"]),
+    ("role", &["presentation", "list", "heading", "none"]),
+    ("tabindex", &["0", "-1"]),
+    ("contenteditable", &["true"]),
+    ("rel", &["nofollow", "noopener noreferrer"]),
+    ("target", &["_blank"]),
+    ("download", &["file.txt"]),
+    ("srcset", &["a.png 1x, b.png 2x"]),
+    ("loading", &["lazy"]),
+    ("scope", &["row", "col"]),
+    ("headers", &["i0 i1"]),
+    ("for", &["i0"]),
+    ("name", &["n", "anchor", ""]),
+    ("summary", &["a table"]),
+    ("nowrap", &[""]),
+    ("bgcolor", &["#fff", "red", "#12"]),
+    ("color", &["blue", "#123456"]),
+    ("face", &["serif"]),
+    ("size", &["1", "+2", "7"]),
+    ("start", &["0", "5", "-2", "99"]),
+    ("rowspan", &["0", "2", "1000"]),
+    ("colspan", &["1", "2", "3"]),
+    ("xmlns", &["http://www.w3.org/1999/xhtml"]),
+];
+
+/// Append one plausible generic attribute.
+pub fn gen_generic_attr(rng: &mut Rng, out: &mut String) {
+    let (name, values) = rng.pick(GENERIC_ATTRS);
+    let v = rng.pick(values);
+    if v.is_empty() && rng.chance(1, 2) {
+        out.push_str(&format!(" {}", name));
+    } else if v.contains(' ') || v.contains('"') || rng.chance(1, 2) {
+        out.push_str(&format!(" {}='{}'", name, v.replace('\'', "")));
+    } else {
+        out.push_str(&format!(" {}={}", name, v));
+    }
+}
+
 pub const CLASSES: &[&str] = &["c0", "c1", "c2", "c3"];
 pub const IDS: &[&str] = &["i0", "i1", "i2", "i3", "i4"];
 
@@ -227,6 +310,12 @@ impl<'a> DocGen<'a> {
             let which = if self.rng.chance(1, 2) { "color" } else { "bgcolor" };
             self.out.push_str(&format!(" {}=\"{}\"", which, col));
         }
+        // any other attribute a renderer might one day look at
+        if self.rng.chance(1, 6) {
+            for _ in 0..self.rng.urange(1, 3) {
+                gen_generic_attr(self.rng, &mut self.out);
+            }
+        }
     }
 
     fn open(&mut self, tag: &str) {
@@ -280,7 +369,11 @@ impl<'a> DocGen<'a> {
             if k < 45 || depth >= self.p.max_depth {
                 self.text(8);
             } else if k < 70 {
-                let tag = self.rng.pick(INLINE_TAGS);
+                let tag = if self.rng.chance(1, 4) {
+                    self.rng.pick(PHRASING_TAGS)
+                } else {
+                    self.rng.pick(INLINE_TAGS)
+                };
                 self.open(tag);
                 self.inline(depth + 1);
                 self.close(tag);
@@ -310,7 +403,12 @@ impl<'a> DocGen<'a> {
                     _ => self.out.push_str("<img src=x alt=\"a\tb\nc\">"),
                 }
             } else if k < 92 {
-                self.out.push_str(self.rng.pick(&["<br>", "<br/>", "<br><br>", "<wbr>", "<hr>"]));
+                if self.rng.chance(1, 5) {
+                    let tag = self.rng.pick(LEAF_TAGS);
+                    self.open(tag);
+                } else {
+                    self.out.push_str(self.rng.pick(&["<br>", "<br/>", "<br><br>", "<wbr>", "<hr>"]));
+                }
             } else if k < 96 {
                 // superscript digits / text
                 self.out.push_str("<sup>");
@@ -500,7 +598,11 @@ impl<'a> DocGen<'a> {
             } else if k < 78 && self.p.pre {
                 self.pre(depth + 1);
             } else if k < 86 {
-                let tag = self.rng.pick(&["blockquote", "div", "div", "section", "article", "center", "address"]);
+                let tag = if self.rng.chance(1, 4) {
+                    self.rng.pick(SPECIAL_TAGS)
+                } else {
+                    self.rng.pick(&["blockquote", "div", "div", "section", "article", "center", "address"])
+                };
                 self.open(tag);
                 self.blocks(depth + 1, 3);
                 self.close(tag);
